@@ -50,12 +50,16 @@ MCNext ==
           FQueue(typ, bs) /\ H([s |-> "q", typ |-> typ, bs |-> bs])
   \/ /\ started /\ n < MaxSteps
      /\ \E id \in Ids : FUpdate(id) /\ H([s |-> "upd", id |-> id])
+  \* a pre-formed request with explicit ids (above and below each other, far from the automatic ones)
+  \/ /\ started /\ n < MaxSteps /\ Cardinality(rawpos) < 2
+     /\ \E ids \in {<<500>>, <<400>>, <<501, 450>>} : \E via \in {"inject", "enqueue"} :
+          FInject(ids) /\ H([s |-> "inject", ids |-> ids, via |-> via])
   \* StartSending in the middle of a program (at most once): what was queued goes out, what is queued later follows
   \/ /\ started /\ n < MaxSteps /\ ~\E i \in DOMAIN hist : hist[i].s = "send"
      /\ UNCHANGED fvars /\ H([s |-> "send"])
 
 MCSpec == MCInit /\ [][MCNext]_mcvars
-View == <<started, mode, initId, curId, opCount, builders, queued, n>>
+View == <<started, mode, initId, curId, opCount, builders, queued, rawpos, n>>
 Complete == n = MaxSteps
 Emit == (EmitOn /\ Complete) => PrintT("@@" \o ToJson(hist))
 =============================================================================
